@@ -230,6 +230,40 @@ def gen_switch(rng, usable_client):
     return (f"SET character_set_database = 'garbage'", f"[IVar false ScSession {S('character_set_database')} (RVal (VStr {S('garbage')}))]", dict())
 
 
+def repeated_result(ctx, rng):
+    """the same result (same column names, types and column character sets) before and after the results character set changes,
+    and back: names and cells decode to what the application returned every time"""
+    names = ["pr\u00e9nom0", "stra\u00dfe1"]
+    cells = ("caf\u00e9", "na\u00efve")
+    for order in (("utf8mb4", "latin1", "utf8mb4"), ("latin1", "utf8mb4", "cp1252" if "cp1252" in REF else "latin1"), ("utf8mb4", "macroman", "latin1")):
+        if any(o not in REF for o in order):
+            continue
+        env = impl.Env(own_sleep=False)
+        try:
+            log = []
+            TextSession.LOG = log
+            TextSession.REBIND = False
+            srv = impl.make_server(env, TextSession)
+            c = RefClient(env, srv, rng, 45, "u", "db", [])
+            if not c.ok:
+                return dict(problem="handshake refused")
+            for step, cs in enumerate(order):
+                rep = c.decode_reply(c.query(f"SET character_set_results = '{cs}'"))
+                if rep[0] != "ok":
+                    return dict(problem="SET character_set_results refused", charset=cs, reply=repr(rep)[:120])
+                c.results = cs
+                TextSession.NEXT = ("result", ResultSet(rows=[cells], columns=[ResultColumn(nm, ColumnType.VARCHAR, character_set=CharacterSet["latin1"]) for nm in names]))
+                rep = c.decode_reply(c.query("SELECT c FROM t"))
+                ctx.evals += 1
+                if rep[0] != "rows" or rep[1] != names or rep[2] != [cells]:
+                    return dict(problem="the same result, sent again after the results character set changed, does not decode to what the application returned",
+                                results_character_sets=list(order[:step + 1]), sent=names, got=repr(rep[1:3])[:200])
+        finally:
+            TextSession.NEXT = None
+            env.close()
+    return None
+
+
 def history(ctx, rng, lib_sets):
     """one connection: handshake in a random collation, then commands and switches; returns (problem, log for the model)"""
     usable_client = [n for n in lib_sets if n in REF and n not in RESULTS_ONLY]
@@ -463,6 +497,9 @@ def run(ctx: core.Ctx):
             witness = dict(kind="collation", collation=co.name, library=co.charset.name, reference=REF_COLL[int(co)])
 
     # ---- histories through the real connection ---------------------------------------------------------------------------
+    rr = repeated_result(ctx, rng)
+    if rr:
+        witness = witness or dict(kind="repeated-result", **rr)
     nh = 60 if ctx.quick else 1500
     hist = []
     for _ in range(nh):
